@@ -737,7 +737,31 @@ impl<'a> Gen<'a> {
             35 if self.f.foldable => {
                 // adversarial shapes: a known-true guard in front of a multi-value call, a user
                 // variable named `_`, an unused local initialised by a field read, duplicate names
-                match self.rng.below(9) {
+                match self.rng.below(12) {
+                    9 => {
+                        // values of `and` / `or` whose known operand is falsy: the value is the FIRST falsy operand
+                        self.line("local fl = ext_b(1)");
+                        self.line("local nl = ext_n(1)");
+                        self.line("ext_p(fl and false, fl and nil, nl and false, (fl and nil) == nil, (fl and false) == false)");
+                        self.line("ext_p(fl or false, fl or nil, nil or fl, false or nl, { fl and nil, 1 }, #{ fl and false })");
+                    }
+                    10 => {
+                        // lengths and comparisons of strings that are not ASCII: bytes, not characters
+                        match self.rng.below(3) {
+                            0 => self.line("ext_p(#\"h\u{e9}llo\", #\"\u{65e5}\u{672c}\", #\"\u{2022} \", #\"abc\", #\"\\255\\254\")"),
+                            1 => self.line("if #\"\u{2192}\" == 1 then ext_p(\"narrow\") else ext_p(\"wide\") end"),
+                            _ => self.line("ext_p(\"\u{e9}\" < \"z\", \"\u{e9}\" .. 1, #(\"\u{e9}\" .. \"\u{e9}\"))"),
+                        }
+                    }
+                    11 => {
+                        // a comment between the tokens of a foldable expression: the folded node has no token and is
+                        // written right after the comment
+                        match self.rng.below(3) {
+                            0 => self.line("local dbg = -- set by the build\n  1 == 2\next_p(dbg)"),
+                            1 => self.line("ext_p(-- note\n  1 + 1 == 2, \"x\" .. -- c\n  \"y\", not -- why\n  nil)"),
+                            _ => self.line("local function resolved()\n  return -- resolved at build time\n    1 == 2\nend\next_p(resolved())"),
+                        }
+                    }
                     5 => {
                         // all-unused multiple declaration whose values interleave effectful reads and calls: every
                         // effect must stay, in source order
